@@ -56,7 +56,7 @@ fn main() {
         }
         "transport" => {
             // nvh transport <script> : the REAL tcp and http front ends (tcp_ops::start_tcp_client, http_ops::start_http_client) on loopback
-            // ports, driven over sockets.  Ops: `T <sid>` connect, `C <sid> <escaped command>` one line, `X <sid>` close the socket,
+            // ports, driven over sockets.  Ops: `T <sid>` connect (tcp), `W <sid>` connect (websocket: handshake and frames by hand), `C <sid> <escaped command>` one line, `X <sid>` close the socket,
             // `H <escaped body>` one HTTP POST, `DUMP`.  Output: `> op`, then `B <sid> <escaped bytes>` for whatever arrived on a socket while
             // the op ran (until 60 ms of silence), `H <escaped response body>`, dump lines.
             use std::io::Read;
@@ -73,6 +73,8 @@ fn main() {
             let http_addr = format!("127.0.0.1:{}", free_port());
             { let d = dbs.clone(); let a = tcp_addr.clone(); let dd = dir.clone(); std::thread::spawn(move || { nundb::verif::set_data_dir(Some(dd)); nundb::network::tcp_ops::start_tcp_client(d, &a) }); }
             { let d = dbs.clone(); let a = std::sync::Arc::new(http_addr.clone()); let dd = dir.clone(); std::thread::spawn(move || { nundb::verif::set_data_dir(Some(dd)); nundb::network::http_ops::start_http_client(d, a) }); }
+            let ws_addr = format!("127.0.0.1:{}", free_port());
+            { let d = dbs.clone(); let a = std::sync::Arc::new(ws_addr.clone()); let dd = dir.clone(); std::thread::spawn(move || { nundb::verif::set_data_dir(Some(dd)); nundb::network::ws_ops::start_web_socket_client(d, a) }); }
             let connect = |addr: &str| -> TcpStream {
                 let t0 = Instant::now();
                 loop {
@@ -81,6 +83,32 @@ fn main() {
             };
             let n = node::Node { name: "n1".to_string(), pid: 1, co_mode: false, cos: std::collections::BTreeMap::new(), next_co: 0, sup_fut: None, sup_in: None, links: vec![], repl_fut: None, repl_in: None, dbs, repl_rx, sup_rx, sessions: std::collections::BTreeMap::new(), dir: dir.clone(), notices: std::collections::HashMap::new(), last_dump: vec![] };
             let mut socks: std::collections::BTreeMap<usize, TcpStream> = std::collections::BTreeMap::new();
+            // websocket sessions: the same map of sockets; what arrives is a stream of frames, decoded here (payload of text frames kept)
+            let mut ws_sids: std::collections::BTreeSet<usize> = std::collections::BTreeSet::new();
+            let mut ws_buf: std::collections::BTreeMap<usize, Vec<u8>> = std::collections::BTreeMap::new();
+            fn ws_frame(opcode: u8, payload: &[u8]) -> Vec<u8> {
+                let mut f = vec![0x80 | opcode];
+                let n = payload.len();
+                if n < 126 { f.push(0x80 | n as u8); } else if n < 65536 { f.push(0x80 | 126); f.extend_from_slice(&(n as u16).to_be_bytes()); } else { f.push(0x80 | 127); f.extend_from_slice(&(n as u64).to_be_bytes()); }
+                let mask = [0x12u8, 0x34, 0x56, 0x78]; f.extend_from_slice(&mask);
+                for (i, b) in payload.iter().enumerate() { f.push(b ^ mask[i % 4]); }
+                f
+            }
+            // complete frames at the front of `buf` -> concatenated payloads of the text frames; a close frame shows as `<close>`
+            fn ws_decode(buf: &mut Vec<u8>) -> Vec<u8> {
+                let mut out = vec![];
+                loop {
+                    if buf.len() < 2 { break; }
+                    let op = buf[0] & 0x0f; let l0 = (buf[1] & 0x7f) as usize; let masked = buf[1] & 0x80 != 0;
+                    let (len, mut off) = if l0 < 126 { (l0, 2) } else if l0 == 126 { if buf.len() < 4 { break; } (u16::from_be_bytes([buf[2], buf[3]]) as usize, 4) }
+                                         else { if buf.len() < 10 { break; } (u64::from_be_bytes([buf[2], buf[3], buf[4], buf[5], buf[6], buf[7], buf[8], buf[9]]) as usize, 10) };
+                    if masked { off += 4; }
+                    if buf.len() < off + len { break; }
+                    if op == 1 || op == 0 { out.extend_from_slice(&buf[off..off + len]); } else if op == 8 { out.extend_from_slice(b"<close>"); }
+                    buf.drain(..off + len);
+                }
+                out
+            }
             // everything that arrives on the open sockets until all of them have been silent for `quiet` ms (at most `max` ms)
             fn collect(socks: &mut std::collections::BTreeMap<usize, TcpStream>, need: Option<usize>, quiet: u64, max: u64) -> Vec<(usize, Vec<u8>)> {
                 let mut got: std::collections::BTreeMap<usize, Vec<u8>> = std::collections::BTreeMap::new();
@@ -107,19 +135,57 @@ fn main() {
                     "T" => {
                         let sid: usize = p[1].parse().unwrap();
                         socks.insert(sid, connect(&tcp_addr));
-                        for (s, b) in collect(&mut socks, Some(sid), 60, 3000) { writeln!(out, "B {} {}", s, proto::esc_bytes(&b, false)).unwrap(); }
+                        for (s, b) in collect(&mut socks, Some(sid), 60, 3000) {
+                            let b = if ws_sids.contains(&s) { let wb = ws_buf.entry(s).or_default(); wb.extend_from_slice(&b); ws_decode(wb) } else { b };
+                            if !b.is_empty() { writeln!(out, "B {} {}", s, proto::esc_bytes(&b, false)).unwrap(); }
+                        }
+                    }
+                    "W" => {
+                        // a websocket session: the upgrade handshake by hand, then frames
+                        let sid: usize = p[1].parse().unwrap();
+                        let mut st = connect(&ws_addr);
+                        let req = format!("GET / HTTP/1.1\r\nHost: {}\r\nUpgrade: websocket\r\nConnection: Upgrade\r\nSec-WebSocket-Key: dGhlIHNhbXBsZSBub25jZQ==\r\nSec-WebSocket-Version: 13\r\n\r\n", ws_addr);
+                        st.write_all(req.as_bytes()).unwrap(); st.flush().unwrap();
+                        st.set_read_timeout(Some(Duration::from_millis(3000))).unwrap();
+                        let mut hdr = Vec::new(); let mut one = [0u8; 1];
+                        while !hdr.ends_with(b"\r\n\r\n") { match st.read(&mut one) { Ok(1) => hdr.push(one[0]), _ => break } }
+                        writeln!(out, "U {} {}", sid, if hdr.starts_with(b"HTTP/1.1 101") { "upgraded" } else { "refused" }).unwrap();
+                        socks.insert(sid, st); ws_sids.insert(sid);
+                        for (s, b) in collect(&mut socks, None, 60, 3000) {
+                            let b = if ws_sids.contains(&s) { let wb = ws_buf.entry(s).or_default(); wb.extend_from_slice(&b); ws_decode(wb) } else { b };
+                            if !b.is_empty() { writeln!(out, "B {} {}", s, proto::esc_bytes(&b, false)).unwrap(); }
+                        }
                     }
                     "C" => {
                         let sid: usize = p[1].parse().unwrap();
                         let cmd = proto::unesc(p.get(2).cloned().unwrap_or(""));
-                        if let Some(s) = socks.get_mut(&sid) { let _ = s.write_all(format!("{}\n", cmd).as_bytes()); let _ = s.flush(); }
-                        for (s, b) in collect(&mut socks, Some(sid), 60, 3000) { writeln!(out, "B {} {}", s, proto::esc_bytes(&b, false)).unwrap(); }
+                        let is_ws = ws_sids.contains(&sid);
+                        if let Some(s) = socks.get_mut(&sid) {
+                            if is_ws { let _ = s.write_all(&ws_frame(1, cmd.as_bytes())); } else { let _ = s.write_all(format!("{}\n", cmd).as_bytes()); }
+                            let _ = s.flush();
+                        }
+                        for (s, b) in collect(&mut socks, Some(sid), 60, 3000) {
+                            let b = if ws_sids.contains(&s) { let wb = ws_buf.entry(s).or_default(); wb.extend_from_slice(&b); ws_decode(wb) } else { b };
+                            if !b.is_empty() { writeln!(out, "B {} {}", s, proto::esc_bytes(&b, false)).unwrap(); }
+                        }
                     }
                     "X" => {
                         let sid: usize = p[1].parse().unwrap();
-                        if let Some(s) = socks.remove(&sid) { let _ = s.shutdown(std::net::Shutdown::Both); drop(s); }
+                        // whatever is still on its way to any socket is collected before the session goes away
+                        for (s, b) in collect(&mut socks, None, 80, 3000) {
+                            let b = if ws_sids.contains(&s) { let wb = ws_buf.entry(s).or_default(); wb.extend_from_slice(&b); ws_decode(wb) } else { b };
+                            if !b.is_empty() { writeln!(out, "B {} {}", s, proto::esc_bytes(&b, false)).unwrap(); }
+                        }
+                        if let Some(mut s) = socks.remove(&sid) {
+                            if ws_sids.contains(&sid) { let _ = s.write_all(&ws_frame(8, &[0x03, 0xe8])); let _ = s.flush(); std::thread::sleep(Duration::from_millis(60)); }
+                            let _ = s.shutdown(std::net::Shutdown::Both); drop(s);
+                        }
+                        ws_sids.remove(&sid); ws_buf.remove(&sid);
                         std::thread::sleep(Duration::from_millis(80));
-                        for (s, b) in collect(&mut socks, None, 60, 3000) { writeln!(out, "B {} {}", s, proto::esc_bytes(&b, false)).unwrap(); }
+                        for (s, b) in collect(&mut socks, None, 60, 3000) {
+                            let b = if ws_sids.contains(&s) { let wb = ws_buf.entry(s).or_default(); wb.extend_from_slice(&b); ws_decode(wb) } else { b };
+                            if !b.is_empty() { writeln!(out, "B {} {}", s, proto::esc_bytes(&b, false)).unwrap(); }
+                        }
                     }
                     "H" => {
                         let body = proto::unesc(line.splitn(2, ' ').nth(1).unwrap_or(""));
@@ -131,11 +197,19 @@ fn main() {
                         let text = String::from_utf8_lossy(&resp).into_owned();
                         let b = text.split_once("\r\n\r\n").map(|x| x.1.to_string()).unwrap_or_default();
                         writeln!(out, "H {}", proto::esc(&b)).unwrap();
-                        for (s, b) in collect(&mut socks, None, 60, 3000) { writeln!(out, "B {} {}", s, proto::esc_bytes(&b, false)).unwrap(); }
+                        for (s, b) in collect(&mut socks, None, 60, 3000) {
+                            let b = if ws_sids.contains(&s) { let wb = ws_buf.entry(s).or_default(); wb.extend_from_slice(&b); ws_decode(wb) } else { b };
+                            if !b.is_empty() { writeln!(out, "B {} {}", s, proto::esc_bytes(&b, false)).unwrap(); }
+                        }
                     }
                     "DUMP" => { for l in n.dump() { writeln!(out, "{}", l).unwrap(); } }
                     _ => { writeln!(out, "E bad-op").unwrap(); }
                 }
+            }
+            writeln!(out, "> END").unwrap();
+            for (s, b) in collect(&mut socks, None, 200, 3000) {
+                let b = if ws_sids.contains(&s) { let wb = ws_buf.entry(s).or_default(); wb.extend_from_slice(&b); ws_decode(wb) } else { b };
+                if !b.is_empty() { writeln!(out, "B {} {}", s, proto::esc_bytes(&b, false)).unwrap(); }
             }
             out.flush().unwrap();
             let _ = std::fs::remove_dir_all(&dir);
